@@ -70,15 +70,29 @@ def build_encoding(ob, work):
     return cfile, info
 
 
-def loop_bounds(ob, cfile):
+def loop_bounds(ob, cfile, info=None):
     """per-loop unwinding: runtime (rt/) loops get a bound covering slots/buffer depth; translated code gets ob['unwind'];
     ob['unwind_fn'] = {regex on function name: bound} overrides."""
     rc, out, err, _ = sh(['cbmc', '--show-loops', '--json-ui', '--drop-unused-functions', '-DWITNESS', cfile], timeout=300)
     loops = re.findall(r'"name":\s*"([^"]+)",\s*"sourceLocation":\s*\{\s*"file":\s*"([^"]*)",\s*"function":\s*"([^"]*)"', out)
     rtb = ob.get('rt_unwind', ob.get('nslots', 1) + ob.get('tso', 0) + 4)
     res = []
+    # per-loop classes recorded by the emitter (wait loops yield in every iteration: a small bound loses nothing)
+    cls = {}
+    if info:
+        byfn = {}
+        for name, fil, fn in loops:
+            byfn.setdefault(fn, []).append(name)
+        for inst in info.get('instances', {}).values():
+            cn = inst.get('cname'); lp = inst.get('loops', '')
+            if cn in byfn and len(byfn[cn]) == len(lp):
+                for nm, c in zip(byfn[cn], lp):
+                    cls[nm] = c
+    uw = ob.get('unwind_wait', 3)
     for name, fil, fn in loops:
         b = None
+        if cls.get(name) == 'w' and fn.startswith('T'):
+            b = uw
         for rx, v in ob.get('unwind_fn', {}).items():
             if re.search(rx, fn):
                 b = v
@@ -89,14 +103,14 @@ def loop_bounds(ob, cfile):
     return res
 
 
-def cbmc_cmd(ob, cfile, extra=()):
+def cbmc_cmd(ob, cfile, extra=(), info=None):
     cmd = list(CBMC_BASE)
     cmd += ['--unwind', str(ob.get('unwind', 4))]
     if ob.get('unwinding_assertions', False):
         cmd += ['--unwinding-assertions']
     else:
         cmd += ['--no-unwinding-assertions']
-    lb = loop_bounds(ob, cfile)
+    lb = loop_bounds(ob, cfile, info)
     if lb:
         cmd += ['--unwindset', ','.join(lb)]
     cmd += ob.get('cbmc_flags', [])
@@ -143,7 +157,7 @@ def run_obligation(ob, workroot, keep=False):
         return res
     res['encoding'] = {'instances': info['instances'], 'ir_lines': info['ir_lines'],
                        'primitives': info['primitives'], 'warnings': info['warnings']}
-    cmd = cbmc_cmd(ob, cfile)
+    cmd = cbmc_cmd(ob, cfile, info=info)
     # fail-closed guard (DESIGN 2.2): a dereference that CBMC resolves to its integer-address memory would be a
     # silently lost access; symbolic execution only (no solving), run concurrently with the real query
     guard = cf.ThreadPoolExecutor(max_workers=1)
@@ -208,7 +222,7 @@ def run_obligation(ob, workroot, keep=False):
         res['verdict'] = 'violated'
         # obtain a trace for the first failure
         f0 = res['failures'][0]
-        cmd2 = cbmc_cmd(ob, cfile, extra=['--property', f0['property'], '--trace'])
+        cmd2 = cbmc_cmd(ob, cfile, extra=['--property', f0['property'], '--trace'], info=info)
         rc2, out2, err2, wall2 = sh(cmd2, timeout=ob.get('timeout', 600), mem_gb=ob.get('mem_gb', 12))
         choices = extract_choices(out2)
         res['trace_choices'] = choices
